@@ -209,6 +209,10 @@ func (h *memoHarness) Gen(r *Rand, tier string, clean bool) any {
 						// the caller gives up while the wrapped lookup is streaming: its context is cancelled right before
 						// element j leaves the wrapped driver
 						op.F = &FaultSpec{Mode: "cancel", J: r.Range(1, 3)}
+					case r.Chance(0.25):
+						// the caller gives up after having received j elements - whether they come from the wrapped driver
+						// or from the memo
+						op.F = &FaultSpec{Mode: "giveup", J: r.Range(1, 3)}
 					case r.Chance(0.3):
 						op.F = &FaultSpec{Mode: "before"}
 					default:
@@ -422,7 +426,11 @@ func (h *memoHarness) runSequential(t *testing.T, c *MemoCase) *Outcome {
 		// faulty-driver configuration: the next call this op makes on the wrapped driver fails
 		armed, fired := false, false
 		opCtx := ctx
-		if ss != nil && op.F != nil {
+		giveUp := op.F != nil && op.F.Mode == "giveup" && op.K == "lookup"
+		if giveUp {
+			sig[len(sig)-1] += "!giveup"
+		}
+		if ss != nil && op.F != nil && op.F.Mode != "giveup" {
 			if op.F.Mode == "cancel" {
 				var cancel context.CancelFunc
 				opCtx, cancel = context.WithCancel(ctx)
@@ -494,7 +502,15 @@ func (h *memoHarness) runSequential(t *testing.T, c *MemoCase) *Outcome {
 			}
 			lo1, lo2 := os.Build(), os.Build()
 			snap := optsSnapshot(lo1)
+			if giveUp {
+				var cancel context.CancelFunc
+				opCtx, cancel = context.WithCancel(ctx)
+				defer cancel()
+				drainCancel, drainCancelAfter, drainCancelled = cancel, op.F.J, false
+			}
 			got := doLookup(opCtx, hd, *op.L, lo1, c.Cap)
+			gaveUp := giveUp && drainCancelled
+			drainCancel = nil
 			settle()
 			want := doLookup(ctx, inner, *op.L, lo2, c.Cap)
 			o.stat("reads", 1)
@@ -503,6 +519,19 @@ func (h *memoHarness) runSequential(t *testing.T, c *MemoCase) *Outcome {
 			}
 			if !got.Closed {
 				return violation("C19:channel-not-closed", "op %d %s: wrapper did not close the channel", i, op.desc(c))
+			}
+			if gaveUp {
+				// the caller cancelled after j elements: the read may fail (having delivered a prefix) or complete - the
+				// wrapped store, which ignores the context, completes. What it may not do is report success for a part.
+				o.stat("fault_caller_gives_up_after_j_elements", 1)
+				if len(got.Keys) > len(want.Keys) || !equalStrings(got.Keys, want.Keys[:len(got.Keys)]) {
+					return violation("C19:wrong-data-on-cancelled-read", "op %d %s: delivered %q, the wrapped store holds %q\nhistory: %s", i, op.desc(c), got.Keys, want.Keys, h.renderSeq(c, i))
+				}
+				if got.Err == nil && len(got.Keys) != len(want.Keys) {
+					return violation("C19:cancelled-read-reports-success-for-a-part", "op %d %s: the caller cancelled after %d elements; the wrapper delivered %d of %d elements and returned a nil error (the wrapped store delivers all of them)\nhistory: %s", i, op.desc(c), op.F.J, len(got.Keys), len(want.Keys), h.renderSeq(c, i))
+				}
+				afterFault = true
+				continue
 			}
 			if fired && op.F.Mode == "cancel" {
 				// the caller cancelled its own read: it may fail or not, but it never delivers anything the wrapped store does
